@@ -53,8 +53,17 @@ def gen_align(rng, tier):
         # multi-residue molecules: restrictions=None lets the alignment guess the pairs by residue matching (or not)
         n_res = rng.randint(2, min(4, ns, ne))
         guess = {"auto": rng.random() < 0.75, "omit_flag": rng.random() < 0.5}
+    n_res_end = n_res
+    if guess is not None and guess["auto"] and ne >= n_res + 1 and rng.random() < 0.15:
+        n_res_end = n_res + 1          # the end molecule has one residue more: automatic guessing must refuse the pair
+        guess["unequal"] = True
     start = gen.mol_spec(rng, "SPC", ns, p_hydrogen=p_h, tree_style=None, n_res=n_res)
-    end = gen.mol_spec(rng, "SPC", ne, p_hydrogen=p_h, tree_style=None, n_res=n_res)
+    end = gen.mol_spec(rng, "SPC", ne, p_hydrogen=p_h, tree_style=None, n_res=n_res_end)
+    if guess is not None and rng.random() < 0.3:
+        # a homopolymer: every residue carries the same name (the residues differ by their numbers only)
+        for spec in (start, end):
+            spec["resnames"] = ["EO"] * len(spec["resnames"])
+        guess["homopolymer"] = True
     for spec in (start, end):
         spec["positions"] = (np.array(spec["positions"]) + np.array(gen.rvec(rng, 5.0))).tolist()
         if rng.random() < 0.3:
@@ -234,6 +243,26 @@ def _align_once(trace, ctx, shared, second=False):
         # judged here against the clauses of the statement -- or none at all when guessing is switched off
         restr = None
         given = []
+        if g.get("homopolymer"):
+            ctx.probe("homopolymer_residue_names")
+        if g["auto"] and g.get("unequal"):
+            # unequal residue counts: the alignment must refuse (whatever error), and the optimiser must not be reached
+            if not g["omit_flag"]:
+                kwargs["auto_guess_protein_restrictions"] = True
+            with patched(A, "minimize_molecules", stub):
+                try:
+                    ali.align_molecules(restrictions=None, deformation_types=None if trace["deform"] is None else tuple(trace["deform"]),
+                                        ignore_hydrogens=trace["ignore_h"], **kwargs)
+                except Exception:
+                    ctx.fault("unequal_residue_counts_refused")
+                    ctx.op("align", "unequal-refused")
+                    ctx.nontrivial = True
+                    return
+            ctx.violate(P, "guess-unequal-residue-counts-accepted",
+                        f"molecules with {len(ali.start.residues)} and {len(ali.end.residues)} residues were aligned with "
+                        f"automatically guessed restraints instead of being refused"
+                        f"{' (all residues share one name)' if g.get('homopolymer') else ''}")
+            return
         if g["auto"]:
             from gaddlemaps import guess_protein_restrains
             try:
